@@ -1,16 +1,16 @@
 package main
 
 import (
-	"strconv"
-	"regexp"
-	"math/bits"
 	"bytes"
 	"context"
 	"fmt"
 	"io"
+	"math/bits"
 	"math/rand"
 	"os"
 	"path/filepath"
+	"regexp"
+	"strconv"
 	"strings"
 
 	"github.com/folbricht/desync"
